@@ -187,7 +187,8 @@ def collect_sites(ctx):
                     lalrpop += 1
                     continue
                 sites[(zone, re.sub(r"^fun::parser::fun::__action\d+", "fun::parser::fun::__action#", k), kind, det)].append(sp)
-        return {"sites": sites, "za": za, "zb": zb, "lalrpop": lalrpop, "overflow": overflow, "entries_b": len(bents)}
+        crate = {re.sub(r"^fun::parser::fun::__action\d+", "fun::parser::fun::__action#", k): fx.fns[k]["crate"] for k in set(za) | set(zb)}
+        return {"sites": sites, "crate": crate, "za": za, "zb": zb, "lalrpop": lalrpop, "overflow": overflow, "entries_b": len(bents)}
     return ctx.memo("panic-sites", build)
 
 
@@ -208,7 +209,25 @@ def rule_panic(zones=("A", "B")):
         rows = {}
         for r in d["row"]:
             rows[(r["key"], r["kind"], r.get("detail", ""))] = r
+        # A site keeps its audit row when it moves within its crate: the identity of a site that carries a message is
+        # (crate, message) - the macro that raises it and the function that contains it may change; a positional operation on
+        # a sequence is identified by its obligation (position < length: index/remove/swap_remove; position <= length:
+        # split_off/split_at/rotate/insert/drain), any other site by (crate, kind, receiver type).  The rows of one identity form a pool whose capacity is the sum of their counts; the
+        # sites of that identity (in every zone) may be distributed over functions in any way as long as there are not more
+        # of them than the pool allows.  A site of an identity without a row, or one more than the pool holds, is new.
+        cap, use, pool_classes = defaultdict(int), defaultdict(int), defaultdict(set)
+        for (k, kind, det), r in rows.items():
+            if "file" not in r:
+                continue
+            pk = _pool(r["crate"], r["file"], kind, det)
+            cap[pk] += r.get("count", 1)
+            pool_classes[pk].add(r["class"])
+        fcrate = {}
+        for (zone, k, kind, det), sps in data["sites"].items():
+            pk = _pool(data["crate"][k], _relfile(sps[0]["file"]), kind, det)
+            use[pk] += len(sps)
         seen_rows = set()
+        moved = 0
         for (zone, k, kind, det), sps in sorted(data["sites"].items()):
             if zone not in zones:
                 continue
@@ -217,24 +236,40 @@ def rule_panic(zones=("A", "B")):
             ikey = "%s|%s|%s" % (k, kind, det)
             row = rows.get((k, kind, det))
             lines = ",".join(str(s["line"]) for s in sps)
-            if row is None:
+            pk = _pool(data["crate"][k], file, kind, det)
+            in_pool = pk in cap and use[pk] <= cap[pk]
+            if row is None or len(sps) > row.get("count", 1):
+                if not in_pool:
+                    res.inst(ikey, file, line, "violation")
+                    if row is None and pk not in cap:
+                        why = "has no audit row: a new way to crash on user input"
+                    elif row is None:
+                        why = ("has no audit row, and the %d audited sites of its kind in %s are all still there (%d now): a new way to crash "
+                               "on user input" % (cap[pk], "crate " + pk[1], use[pk]))
+                    else:
+                        why = "occurs %d times in this function, the audit row allows %d (lines %s), and no audited site of its kind vanished elsewhere" % (
+                            len(sps), row.get("count", 1), lines)
+                    res.violate(ikey, "panic-capable site (%s %s) reachable from the %s entry points %s%s" %
+                                (kind, det, "parser/type-checker" if zone == "A" else "post-check pipeline", why, _via(ctx, data, zone, k)),
+                                file, line, {"lines": lines, "zone": zone})
+                    continue
+                classes = pool_classes[pk]
+                moved += 1
+            else:
+                classes = {row["class"]}
+                seen_rows.add((k, kind, det))
+            if zone == "A" and not classes <= ZONE_A_ALLOWED:
                 res.inst(ikey, file, line, "violation")
-                res.violate(ikey, "panic-capable site (%s %s) reachable from the %s entry points has no audit row: a new way to "
-                            "crash on user input%s" % (kind, det, "parser/type-checker" if zone == "A" else "post-check pipeline",
-                                                       _via(ctx, data, zone, k)), file, line, {"lines": lines, "zone": zone})
-                continue
-            seen_rows.add((k, kind, det))
-            if len(sps) > row.get("count", 1):
-                res.inst(ikey, file, line, "violation")
-                res.violate(ikey, "%d sites of kind %s in this function, the audit row allows %d (lines %s)" %
-                            (len(sps), kind, row.get("count", 1), lines), file, line, {"zone": zone})
-                continue
-            if zone == "A" and row["class"] not in ZONE_A_ALLOWED:
-                res.inst(ikey, file, line, "violation")
-                res.violate(ikey, "site of class %s is reachable from the parser/type checker (zone A allows only LOCAL/GENERATED)" % row["class"],
+                res.violate(ikey, "site of class %s is reachable from the parser/type checker (zone A allows only LOCAL/GENERATED)" % "/".join(sorted(classes)),
                             file, line, {"zone": zone})
                 continue
-            res.inst(ikey, file, line, "audited", "%s/%s: %s" % (zone, row["class"], row["reason"]))
+            if row is not None and len(sps) <= row.get("count", 1):
+                res.inst(ikey, file, line, "audited", "%s/%s: %s" % (zone, row["class"], row["reason"]))
+            else:
+                res.inst(ikey, file, line, "audited", "%s/%s: an audited site of the same identity (%s), moved to this function" %
+                         (zone, "/".join(sorted(classes)), " ".join(str(x) for x in pk)))
+        if moved:
+            res.notes.append("sites matched by identity rather than by function (moved since the audit): %d" % moved)
         stale = [r for r in rows if r not in seen_rows]
         if stale:
             res.notes.append("stale audit rows (site vanished or not in the analysed zones): %d" % len(stale))
@@ -249,6 +284,28 @@ def rule_panic(zones=("A", "B")):
         return res
     rule.__name__ = "rule_panic_" + "".join(zones)
     return rule
+
+
+_MACRO = re.compile(r"^(panic|assert|assert_eq|assert_ne|unreachable|todo|unimplemented|debug_assert): ")
+
+
+_SEQ = ("Vec", "VecDeque", "slice", "str", "String", "std::vec::Vec", "alloc::vec::Vec", "std::collections::VecDeque",
+        "alloc::collections::vec_deque::VecDeque", "std::string::String", "alloc::string::String")
+_LT_LEN = {"index", "remove", "swap_remove", "swap", "assert:BoundsCheck"}
+_LE_LEN = {"split_off", "split_at", "split_at_mut", "rotate_left", "rotate_right", "insert", "drain", "range", "range_mut", "chunks"}
+
+
+def _pool(crate, file, kind, det):
+    """identity of a site that survives moving it to another function of its crate (see rule_panic)"""
+    msg = _MACRO.sub("", det) if kind == "panic" else det
+    if kind in ("panic", "expect") and msg and msg not in ("internal error: entered unreachable code", "explicit panic"):
+        return ("msg", crate, msg)
+    seq = det in _SEQ or det.startswith("[") or kind == "assert:BoundsCheck"
+    if seq and kind in _LT_LEN:
+        return ("obligation", crate, "position < length of a sequence")
+    if seq and kind in _LE_LEN:
+        return ("obligation", crate, "position <= length of a sequence")
+    return ("site", crate, kind, det)
 
 
 def _relfile(p):
